@@ -7,7 +7,7 @@ from vlib import fmt_list
 
 PID = 'C14'
 RULE = ('encode_str then decode_str on strings drawn from ASCII, Latin-1 supplement, C0/C1 controls, BMP and astral scalars, alone and '
-        'mixed, inside and outside Macro 05/06 envelopes; scalars with a special role (U+FEFF, non-characters, the borders of the UTF-8 lengths and of the surrogate gap, C1/Latin-1 borders, invisible characters) in every position of short strings; strings whose UTF-8 form has 1030..1500 bytes (largest symbols); long printable strings (lengths around 64, 128, 192, 256) with such scalars at the start, the end, the 64-byte borders and random positions; utf8_to_latin1 / latin1_to_utf8 on every scalar value up to U+017F plus '
+        'mixed, inside and outside Macro 05/06 envelopes; scalars with a special role (U+FEFF, non-characters, the borders of the UTF-8 lengths and of the surrogate gap, C1/Latin-1 borders, invisible characters) in every position of short strings; printable Latin-1 strings around the small symbol capacities ending in Latin-1 supplement characters; strings whose UTF-8 form has 1030..1500 bytes (largest symbols); long printable strings (lengths around 64, 128, 192, 256) with such scalars at the start, the end, the 64-byte borders and random positions; utf8_to_latin1 / latin1_to_utf8 on every scalar value up to U+017F plus '
         'samples of the rest and on all 256 bytes; non-trivial = non-empty string')
 THEOREMS = 'C14_tables, C14_helpers, C14_inverse, C14_choice, C14_eci_header, C14_utf8_roundtrip'
 ASSUMPTIONS = ['Rust String/char modelled as scalar lists; the sort order of remove_hopeless_cases is taken from the implementation']
@@ -71,6 +71,17 @@ def gen_cases(rng, tier, ctx):
                 cs.append({'line': 'utf8_to_latin1 %s' % fmt_list(v), 'cat': 'long-string-helper', 's': v})
                 if L <= 130 or rng.chance(1, 3):
                     cs.append({'line': 'str_rt %s %s' % (fmt_list(v), fmt_list(gen.ALL48)), 'cat': 'long-string', 's': v})
+    # printable Latin-1 strings whose encoded length lands around a small symbol capacity and whose last characters are from the
+    # Latin-1 supplement (two ASCII codewords each): the end-of-data rules of the mode encoders seen through the string API
+    for c in sorted(set(x for x in gen.caps() if x <= 62)):
+        for kind, per in (('edifact', 4.0 / 3), ('c40', 1.5), ('text', 1.5), ('x12', 1.5)):
+            for delta in (-3, -2, -1, 0, 1, 2):
+                for tail in ([233], [233, 233], [65, 233], [233, 65], [233, 233, 233], [64, 233]):
+                    L = int((c - 1) * per) + delta
+                    if L < len(tail) or (tier == 'quick' and not rng.chance(1, 3)):
+                        continue
+                    v = [rng.choice(gen.ALPH[kind]) for _ in range(L - len(tail))] + tail
+                    cs.append({'line': 'str_rt %s %s' % (fmt_list(v), fmt_list(gen.ALL48 if rng.chance(1, 2) else gen.DEFAULT)), 'cat': 'latin1-tail', 's': v})
     # strings near the capacity of the largest symbols (UTF-8 section longer than 1024 bytes, mixed character widths)
     wide = [0x41, 0xE9, 0x3A9, 0x20AC, 0x4E2D, 0x1F600, 0x7FF, 0x800]
     for target in ([1030, 1400] if tier == 'quick' else [600, 1020, 1030, 1100, 1300, 1400, 1500]):
